@@ -724,6 +724,7 @@ func main() {
 	c.Rule = "generated cases: composer mode x XRD connectionSecretKeys filter (none / subset / disjoint) x connection details (pipeline: details of the first and of the last step; P&T: per-template extraction configs from secret key present/missing, field path string/int/missing, fixed value) x XR with/without writeConnectionSecretToRef x pre-existing XR secret (absent, uncontrolled connection-typed, uncontrolled Opaque, controlled by the XR, controlled by a foreign UID) x claim with/without writeConnectionSecretToRef x pre-existing claim secret x tampering with the XR secret's controller before the claim copies; XR reconciler (both composers) then claim reconciler (both syncers), then a second round. Oracle over stored Secrets and the write log: keys the XR wrote are within the filter and equal the reference extraction; nothing is written when not requested; not-controllable secrets stay byte-identical; the claim secret is an exact copy made only from a secret controlled by the bound XR; the second round writes no secret. distinct = the case; non-trivial = a key was filtered out or a secret pre-existed."
 	c.Rule += " Shared controller: three XRs of the kind served in turn by ONE reconciler (one fetcher, one publisher); only some composed resources have published a connection secret; each XR secret holds only its own resource's values. A claim with the bound claim's name in another namespace referencing the XR gets no secret and does not rebind it. Provenance cases (both composers): XR details derived from the composed resources' connection secrets; a referenced resource is re-parented in place or recreated by another owner behind the XR controller's lagging cache and points at that owner's secret; neither the XR's nor the claim's secret may hold that owner's values."
 	c.Rule += " " + "The shared reconciler also serves an XR of an edited composition (secret keys of its own revision only)."
+	c.Rule += " " + "A foreign-controlled XR secret may appear behind the controllers' Secret cache."
 	c.Assumptions = []string{"sim stores typed Secrets as their JSON (base64 data)", "reference extraction follows the ConnectionDetail API documentation"}
 	c.Floor = 100
 	n := c.N(1200, 20000)
